@@ -79,6 +79,21 @@ impl SubRule {
         }
     }
 
+    /// Drops the syllables a transformation has left without segments, keeping `pos` on the same place in the word
+    fn drop_empty_sylls(word: &mut Word, pos: &mut SegPos) {
+        let mut i = 0;
+        while i < word.syllables.len() {
+            if word.syllables[i].segments.is_empty() && word.syllables.len() > 1 {
+                word.syllables.remove(i);
+                if i < pos.syll_index {
+                    pos.syll_index -= 1;
+                }
+            } else {
+                i += 1;
+            }
+        }
+    }
+
     /// Generous upper bound on the passes a rule can legitimately make over `word`
     fn max_passes(word: &Word) -> usize {
         4 * word.syllables.iter().map(|s| s.segments.len() + 1).sum::<usize>() + 16
@@ -1263,6 +1278,8 @@ impl SubRule {
         if is_context_after {
             pos.increment(&res_word);
         }
+        // e.g. `* > $ / C_` after a syllable-final consonant splits off nothing
+        Self::drop_empty_sylls(&mut res_word, &mut pos);
         
         Ok((res_word, Some(pos)))
     }
@@ -2057,6 +2074,8 @@ impl SubRule {
         };
         if let Some(next) = next_pos {
             pos.increment(&res_word);
+            // e.g. `k > k$` on a syllable-final k splits off nothing
+            Self::drop_empty_sylls(&mut res_word, &mut pos);
             *next = pos;
         }
 
